@@ -186,7 +186,7 @@ def main(tier):
         run.inconclusive_because(f"positive control did not fire: {b}")
     run.counters["positive_controls_fired"] = 18 - len(bad)
     plan = PLAN[tier]
-    run_shards(run, "c04", plan["shards"], timeout_s=600 if tier == "quick" else 7200)
+    run_shards(run, "c04", plan["shards"], timeout_s=3600 if tier == "quick" else 7200)
     from . import c04_native
 
     c04_native.run_native(run, tier)
